@@ -164,7 +164,10 @@ def gen(per_file):
         cands = []
         for ln, line in code_lines(src):
             m = mask(line)
+            bounds = any(w in m for w in ("Send", "Sync", "'static", "dyn ", "impl ", "where ", "Stream<", "Future<", "Fn(", "FnMut(", "FnOnce("))
             for pat, rep in OPS:
+                if bounds and pat in (r" \+ ", r" - ", r" < ", r" > "):
+                    continue  # trait bounds and generics, not arithmetic
                 for mt in re.finditer(pat, m):
                     cands.append((ln, mt.start(), mt.end(), rep))
             for mt in NUM.finditer(m):
